@@ -457,6 +457,14 @@ class World:
     def m_get_block_timestamp(self, ctx, a, comp):
         return self.getter(ctx, a, 'block_timestamp', [], lambda v, p: ok(v))
 
+    def m_get_chain_id(self, ctx, a, comp):
+        cid = Obj('tendermint::chain::Id'); cid.attrs['ident'] = z3.BitVec('chain_id', 256)
+        return self.fut(ctx, a, lambda ex, s2, fut: [(None, ok(cid))])
+
+    def m_try_base_prefixed(self, ctx, a, comp):
+        okv = z3.Bool(f'base_prefix_ok_{len(ctx.st.log)}')
+        return self.fut(ctx, a, lambda ex, s2, fut: [(okv, (lambda s3: ok(Obj('astria_core::primitive::v1::Address')))), (z3.Not(okv), err())])
+
     def m_get_block_height(self, ctx, a, comp):
         return self.getter(ctx, a, 'block_height', [], lambda v, p: ok(v))
 
